@@ -111,3 +111,21 @@ def unknown_frame(rng, gen: int, pid: int | None = None) -> tuple[bytes, str]:
     rc = rng.choice([0, 1, 3]) if rl else 0
     recs = [bytes(rng.randrange(256) for _ in range(rl)) for _ in range(rc)]
     return w.f_cs(pid, sub, recs, rlen=rl, normal=nrm), "cs_unknown"
+
+
+LONG_SIZES = (255, 256, 600, 1017, 1018, 1019, 1022, 1023, 1024, 1025, 1500, 2046, 2047, 2600, 4096, 9000)
+
+
+def long_frame(rng, gen: int, pid: int | None = None, size: int | None = None) -> tuple[bytes, str]:
+    """A well-formed frame far longer than anything a real console sends (the length field is 16 bits wide)."""
+    if pid is None:
+        pid = rng.randrange(256)
+    if size is None:
+        size = rng.choice(LONG_SIZES)
+    w = wire4 if gen == 4 else wire5
+    known = {0x1F, 0x2A, 0x2B, 0x2C, 0x2D, 0x36, 0x37} if gen == 4 else {0x1F, 0xC0}
+    if rng.random() < 0.6:
+        t = rng.choice([x for x in range(256) if x not in known])
+        return w.frame(w.ADDR_CLIENT, w.ADDR_CONSOLE, pid, t, bytes(rng.randrange(256) for _ in range(size))), "unknown"
+    sub = rng.choice([0xFF00, 0xFF14, 0xFF21, 0xFE11])
+    return w.f_ext(pid, sub, bytes(rng.randrange(256) for _ in range(max(0, size - 2)))), "ext_unknown"
